@@ -58,11 +58,23 @@ def prepare(chk, appends=None, rustflags=""):
     if os.path.exists(xf):
         txt = open(xf).read()
         open(os.path.join(real, "xformatter_noregex.rs"), "w").write(strip_regex_items(txt))
+    # derived copy of permissions.rs whose `use std::collections::HashMap;` is redirected to a finite-map model
+    # (hashbrown's SIMD probing + SipHash do not finish in CBMC even on concrete keys)
+    pm = os.path.join(real, "permissions.rs")
+    if os.path.exists(pm):
+        txt = open(pm).read()
+        if txt.count("use std::collections::HashMap;") != 1:
+            raise core.Inconclusive("permissions.rs: HashMap import line not found")
+        open(os.path.join(real, "permissions_mapmodel.rs"), "w").write(txt.replace("use std::collections::HashMap;", "use crate::mapmodel::HashMap;"))
+    from . import slices
+    kc_slices = slices.generate(real)
+    open(os.path.join(real, "builtin_mod.rs"), "w").write('#[path = "builtin_permissions.rs"]\npub mod builtin_permissions;\n')
     cargo = os.path.join(crate, "Cargo.toml")
     txt = open(cargo).read().replace("../models", os.path.join(core.VERIF, "kani", "models"))
     open(cargo, "w").write(txt)
     kc = core.KaniCrate(crate, os.path.join(core.CACHE, "target-unit"), "K-unit (Kani/CBMC)", rustflags)
     kc.hashes = hashes
+    kc.slices = kc_slices
     return kc
 
 
